@@ -678,7 +678,11 @@ func (tr *Tr) markHeapKinds(l Loc, t types.Type) {
 func (tr *Tr) heapVersionAxiom(name, sym, sort, top string) {
 	kind, ok := tr.heapKind[name]
 	if !ok {
-		return
+		tr.g.heapRegistry() // fills the type-derived kinds
+		kind, ok = tr.g.heapKinds[name]
+		if !ok {
+			return
+		}
 	}
 	if kind == "nonneg" {
 		return
